@@ -149,7 +149,7 @@ CHECKS = {
           "lap_hyps, to fail with the plain seek's code where that fails, and to reject what it rejects with the state untouched; lapped page and byte seeks report "
           "the position the plain seek reports wherever that lands on an intact run (priming right after the landing keeps the position). Per run: histories of reads, plain "
           "seeks, half-rate toggles and lapped sample/page/byte seeks replayed on the extracted model (every return code, position, byte cursor, ready state, link, read count), "
-          "the theorem's conclusion demanded from the real code where lap_hyps holds; and, on twin handles with identical call histories: same return code and landing as the plain seek, bit-identical from "
+          "the theorem's conclusion demanded from the real code where lap_hyps holds; and, for every lapped seek variant and for ov_crosslap between two handles, on twin handles with identical call histories: same return code and landing as the plain seek, bit-identical from "
           "min(n1,n2) samples on, inside = new*w^2+old*(1-w^2) (bit-exact where the cells were final), EOF-without-lapping only when nothing follows in the "
           "landing link or there is no decode state. One recorded KNOWN-FINDING (splice before overlap-add).",
   "note": VF_NOTE + " The cross-fade arithmetic is float and is compared with the same expression evaluated on two plain decodes.",
